@@ -72,14 +72,30 @@ fn ids_diff_class(a: &BTreeMap<u128, (Vec<u64>, Option<i32>)>, b: &BTreeMap<u128
     if a.len() != b.len() {
         return "other";
     }
+    // diameter of the bounding box of the vertex set before the call
+    let dims = a.values().next().map_or(0, |(c, _)| c.len());
+    let mut diag2 = 0.0f64;
+    for ax in 0..dims {
+        let vals: Vec<f64> = a.values().filter_map(|(c, _)| c.get(ax).map(|b| f64::from_bits(*b))).collect();
+        let (lo, hi) = vals.iter().fold((f64::INFINITY, f64::NEG_INFINITY), |(lo, hi), v| (lo.min(*v), hi.max(*v)));
+        if lo.is_finite() && hi.is_finite() {
+            diag2 += (hi - lo) * (hi - lo);
+        }
+    }
+    let diag = diag2.sqrt();
     for (u, (c, d)) in a {
         let Some((c2, d2)) = b.get(u) else { return "other" };
         if d != d2 || c.len() != c2.len() {
             return "other";
         }
-        for (x, y) in c.iter().zip(c2) {
+        for (axis, (x, y)) in c.iter().zip(c2).enumerate() {
             let (x, y) = (f64::from_bits(*x), f64::from_bits(*y));
-            if (x - y).abs() > 1e-6 * (1.0 + x.abs()) {
+            // a few documented perturbations (1e-8 x local scale x (axis + 1), local scale bounded
+            // by the diameter of the vertex set) on top of the older relative allowance; the
+            // absolute part matters for coordinates near zero in a large point set (false alarm
+            // from the thorough run: z = 0 moved by 1.08e-6 with a local scale of 36)
+            let allowed = (1e-6 * (1.0 + x.abs())).max(4.0e-8 * diag * (axis as f64 + 1.0));
+            if (x - y).abs() > allowed {
                 return "other";
             }
         }
@@ -293,7 +309,15 @@ impl Valid {
                     "C06",
                     "invalid-after-removal",
                     ctx.step,
-                    format!("op=remove_vertex|kind={}", rv_post.first().map_or("geo", |x| x.kind)),
+                    {
+                        let k = rv_post.first().map_or("geo", |x| x.kind);
+                        if k == "vertex-link" {
+                            // the library's own vertex-link validator is weaker in D >= 4 (C05-F1)
+                            format!("op=remove_vertex|kind={k}|d={D}")
+                        } else {
+                            format!("op=remove_vertex|kind={k}")
+                        }
+                    },
                     format!("pre-state valid; after successful removal: {}; {}", first_violation(rv_post), lib_verdict(ctx)),
                 ),
             );
